@@ -69,6 +69,8 @@ class Analyzer:
                     self.fns.setdefault(f.name, f)
         self.memo = {}
         self.inprog = set()
+        self.deps = set()
+        self.budget = 20000   # summaries recomputed because they rested on an unfinished outer one; beyond it they are memoised as before
         self.bools = {}   # (fn name, local) -> condition AST
         self.peeks = set()  # (fn name, local) bound to p.peek()
 
@@ -108,8 +110,12 @@ class Analyzer:
         if key in self.memo:
             return self.memo[key]
         if key in self.inprog:
+            # pessimistic answer for a call that is being summarised further up the stack; whatever is computed from it depends on the
+            # order in which the functions were entered and is only kept once that outer summary is finished
+            self.deps.add(key)
             return {("some", False, "maybe"), ("none", False, "maybe"), ("other", False, "maybe"), ("true", False, "maybe"), ("false", False, "maybe")}
         self.inprog.add(key)
+        outer, self.deps = self.deps, set()
         st0 = St(at, "no" if at is not None else "maybe", False)
         falls, exits = self.block(f, f.body, [st0], tail=True)
         outs = set()
@@ -119,7 +125,12 @@ class Analyzer:
         for s, cls in falls:
             outs.add((cls, s.adv, s.eof))
         self.inprog.discard(key)
-        self.memo[key] = outs
+        mine = self.deps - {key}
+        self.deps = outer | mine
+        if not mine or self.budget <= 0:
+            self.memo[key] = outs
+        else:
+            self.budget -= 1
         return outs
 
     # ---------- expression evaluation: returns list of (state, valueclass)
